@@ -1355,6 +1355,19 @@ func (e *omegaEnv) ruleOperationIndex(rule string) {
 					d = 4
 				}
 			}
+			// or the table is one of the identifier-indexed registries itself (a list of host-call functions, or
+			// the package-level name table), whatever the index was converted to on the way
+			if !isOp {
+				ts := types.TypeString(ia.X.Type(), nil)
+				if strings.HasSuffix(ts, "PVM.Omegas") || strings.HasSuffix(ts, "[]PVM.Omega") {
+					isOp = true
+				}
+				if u, isU := ia.X.(*ssa.UnOp); isU {
+					if g, isG := u.X.(*ssa.Global); isG && g.Name() == "hostCallName" {
+						isOp = true
+					}
+				}
+			}
 			if !isOp {
 				return
 			}
@@ -1386,7 +1399,16 @@ func (e *omegaEnv) ruleOperationIndex(rule string) {
 				return false, false
 			})
 			key := fmt.Sprintf("%s · %s[%s]", funcKey(f), exprStr(ia.X, shapeOpts), exprStr(idx, shapeOpts))
-			c.Check(guardedBy(f, in, pass), rule, key, in.Pos(), "index by host-call identifier guarded by len of the same table",
+			okIdx := guardedBy(f, in, pass)
+			if !okIdx {
+				// or proven in range by the bounds prover (guards in a helper that reports (index, ok))
+				for _, st := range checkBounds(f) {
+					if st.in == in && st.ok {
+						okIdx = true
+					}
+				}
+			}
+			c.Check(okIdx, rule, key, in.Pos(), "index by host-call identifier guarded by len of the same table",
 				"table indexed by a raw host-call identifier without a bounds check against its length (unknown identifiers crash instead of returning WHAT)")
 		})
 	}
